@@ -1,7 +1,78 @@
-import Tickit.Model.RB
+import Tickit.Proof.RB
 /-
   C03 — render-buffer cells follow last-writer-wins under clip, mask and translation.
-  (theorems follow; stage 1 = the concrete model agreeing with the code)
+
+  The concrete model `Tickit.RB` (Model/RB.lean) is a statement-by-statement transcription of
+  src/renderbuffer.c; the specification is `Tickit.RBAbs` (Model/RBAbs.lean).  Every theorem is universally
+  quantified over buffers, coordinates (all of `Int`), texts and pens.
 -/
 namespace Tickit.Props.C03
+open Tickit Tickit.RB Tickit.RBAbs
+
+/-! ### cursor-relative operations advance the cursor by the columns requested, visible or not -/
+
+/-- `skip n`, `erase n`: the cursor moves right by exactly `n` columns, on the same line, whatever the clip,
+    the masks and the translation are (there is no hypothesis about them), and stays set. -/
+theorem cursor_advances_skip (rb : RB) (n : Int) (h : rb.vcSet = true) :
+    (RB.skip rb n).vcSet = true ∧ (RB.skip rb n).vcLine = rb.vcLine ∧ (RB.skip rb n).vcCol = rb.vcCol + n := by
+  unfold RB.skip
+  simp only [h, Bool.not_true, Bool.false_eq_true, if_false]
+  exact ⟨(congrArg Aux.vcSet (skipRun_aux rb rb.vcLine rb.vcCol n)).trans h,
+         congrArg Aux.vcLine (skipRun_aux rb rb.vcLine rb.vcCol n), trivial⟩
+
+theorem cursor_advances_erase (rb : RB) (n : Int) (h : rb.vcSet = true) :
+    (RB.erase rb n).vcSet = true ∧ (RB.erase rb n).vcLine = rb.vcLine ∧ (RB.erase rb n).vcCol = rb.vcCol + n := by
+  unfold RB.erase
+  simp only [h, Bool.not_true, Bool.false_eq_true, if_false]
+  exact ⟨(congrArg Aux.vcSet (eraseRun_aux rb rb.vcLine rb.vcCol n)).trans h,
+         congrArg Aux.vcLine (eraseRun_aux rb rb.vcLine rb.vcCol n), trivial⟩
+
+/-- `skip_to c`, `erase_to c`: the cursor ends at column `c` (also when `c` is to the left: nothing is drawn). -/
+theorem cursor_advances_skipTo (rb : RB) (c : Int) (h : rb.vcSet = true) :
+    (RB.skipTo rb c).vcSet = true ∧ (RB.skipTo rb c).vcLine = rb.vcLine ∧ (RB.skipTo rb c).vcCol = c := by
+  unfold RB.skipTo
+  simp only [h, Bool.not_true, Bool.false_eq_true, if_false]
+  split
+  · exact ⟨(congrArg Aux.vcSet (skipRun_aux rb rb.vcLine rb.vcCol _)).trans h,
+           congrArg Aux.vcLine (skipRun_aux rb rb.vcLine rb.vcCol _), trivial⟩
+  · exact ⟨h, rfl, trivial⟩
+
+theorem cursor_advances_eraseTo (rb : RB) (c : Int) (h : rb.vcSet = true) :
+    (RB.eraseTo rb c).vcSet = true ∧ (RB.eraseTo rb c).vcLine = rb.vcLine ∧ (RB.eraseTo rb c).vcCol = c := by
+  unfold RB.eraseTo
+  simp only [h, Bool.not_true, Bool.false_eq_true, if_false]
+  split
+  · exact ⟨(congrArg Aux.vcSet (eraseRun_aux rb rb.vcLine rb.vcCol _)).trans h,
+           congrArg Aux.vcLine (eraseRun_aux rb rb.vcLine rb.vcCol _), trivial⟩
+  · exact ⟨h, rfl, trivial⟩
+
+/-- `char`: one column (the code's own TODO: also for a double-width code point). -/
+theorem cursor_advances_char (rb : RB) (cp : Int) (h : rb.vcSet = true) :
+    (RB.char rb cp).vcSet = true ∧ (RB.char rb cp).vcLine = rb.vcLine ∧ (RB.char rb cp).vcCol = rb.vcCol + 1 := by
+  unfold RB.char
+  simp only [h, Bool.not_true, Bool.false_eq_true, if_false]
+  exact ⟨(congrArg Aux.vcSet (putChar_aux rb rb.vcLine rb.vcCol cp)).trans h,
+         congrArg Aux.vcLine (putChar_aux rb rb.vcLine rb.vcCol cp), trivial⟩
+
+/-- `text s` for a text the width counter accepts with `n` columns: the cursor advances by `n` and `n` is
+    returned, however much of the text is clipped or masked away. -/
+theorem cursor_advances_text (rb : RB) (s : List UInt8) (n : Int) (h : rb.vcSet = true)
+    (hs : Utf8.stringColumns s = some n) :
+    (RB.text rb s).vcSet = true ∧ (RB.text rb s).vcLine = rb.vcLine ∧ (RB.text rb s).vcCol = rb.vcCol + n ∧
+    RB.textRet rb s = n := by
+  unfold RB.text RB.textRet putStringRet
+  simp only [h, hs, Bool.not_true, Bool.false_eq_true, if_false]
+  exact ⟨(congrArg Aux.vcSet (putString_aux rb rb.vcLine rb.vcCol s)).trans h,
+         congrArg Aux.vcLine (putString_aux rb rb.vcLine rb.vcCol s), trivial, trivial⟩
+
+/-- Without a cursor position the cursor-relative operations do nothing at all. -/
+theorem cursor_unset_noop (rb : RB) (n : Int) (s : List UInt8) (h : rb.vcSet = false) :
+    RB.skip rb n = rb ∧ RB.erase rb n = rb ∧ RB.skipTo rb n = rb ∧ RB.eraseTo rb n = rb ∧ RB.char rb n = rb ∧
+    RB.text rb s = rb ∧ RB.textRet rb s = -1 := by
+  unfold RB.skip RB.erase RB.skipTo RB.eraseTo RB.char RB.text RB.textRet
+  simp [h]
+
+/-- Non-vacuity: a 1×1 buffer with everything clipped away still advances the cursor by 5. -/
+example : (RB.skip (RB.goto (RB.clip (RB.new 1 1 0 0) ⟨0, 0, 0, 0⟩) 0 0) 5).vcCol = 5 := by decide
+
 end Tickit.Props.C03
